@@ -279,6 +279,7 @@ class Server(object):
         self.uploads = []     # (jid, node) every key upload as received
         self.upload_policy = "result"   # result | error | drop  (what the next upload gets as answer)
         self.label_next_as_broadcast = False   # deliver the next one-to-one message as <message from="status@broadcast" participant=sender>
+        self.withhold_success = set()    # jids whose next connection gets no <success> (the connection drops before the login completes)
         self.seq = 0
 
     # ---- connections
@@ -293,6 +294,9 @@ class Server(object):
 
     def on_connected(self, d):
         jid = self.conns[d]
+        if jid in self.withhold_success:
+            self.withhold_success.discard(jid)
+            return
         self.q(jid, N("success", {"creation": "1500000000", "props": "4", "t": "1500000001", "location": "atn"}))
         for node in self.offline.pop(jid, []):
             self.q(jid, node)
